@@ -1,9 +1,10 @@
 #!/bin/bash
-# runall.sh [tier]: run every registered check once, print one line per check (exit code, wall, result line)
+# runall.sh [tier] ["ids"]: run every registered check (or the listed ones) once, print one line per check (exit code, wall, result line)
 tier="${1:-quick}"
+only="${2:-}"
 cd "$(dirname "$0")/.."
 export GOFLAGS=-mod=mod GOPROXY=off GOSUMDB=off GOTOOLCHAIN=local
-for id in $(python3 -c "import json;print(' '.join(c['property_id'] for c in json.load(open('MANIFEST.json'))['checks']))"); do
+for id in ${only:-$(python3 -c "import json;print(' '.join(c['property_id'] for c in json.load(open('MANIFEST.json'))['checks']))")}; do
   s=$(date +%s)
   out=$(bin/vcheck $id --tier $tier 2>&1); rc=$?
   e=$(date +%s)
